@@ -333,6 +333,11 @@ func (p *player) Bet(chips int64) error {
 		return ErrInvalidAction
 	}
 
+	// A bet must put chips in: zero and negative amounts would corrupt wagers and stacks
+	if chips <= 0 {
+		return ErrInvalidAction
+	}
+
 	//fmt.Printf("[Player %d] bet %d\n", p.idx, chips)
 
 	p.state.DidAction = "bet"
